@@ -4,7 +4,7 @@ HOOKS = {
     "guard": "verif",
     "enable": "go test -tags verif; white-box drivers are injected with `go test -overlay` (nothing is written under /repo); hook call sites are `if verifOn {...}` with verifOn a constant false unless the tag is set",
     "baseline_off_cmd": "cd /repo && export GOFLAGS=-mod=mod GOPROXY=off GOSUMDB=off GOTOOLCHAIN=local && for m in . v2; do (cd $m && go test -vet=off -count=1 -timeout 25m ./...) ; done",
-    "source_commits": ["ff568a1", "e8b7a00"],
+    "source_commits": ["ff568a1", "e8b7a00", "18a6704"],
     "add_only": True,
 }
 ENGINES = [
